@@ -201,18 +201,18 @@ Definition res_app (a b : scan_res) : scan_res := mkR (r_cl a ++ r_cl b) (r_sh a
 
 Definition first_is_wild (f : bytes) : bool := match f with c :: _ => (c =? 43) || (c =? 35) | [] => false end.
 
-Definition gather_subs (topic : bytes) (n : node) : list (bytes * bytes * N) :=
+Definition gather_subs (topic : bytes) (c : content) : list (bytes * bytes * N) :=
   flat_map (fun e : bytes * sub =>
               let (client, s) := e in
               if negb (nilb (sub_filter s)) && starts_dollar topic && first_is_wild (sub_filter s) then []
-              else [(client, sub_filter s, sub_pay s)]) (c_subs (cont n)).
-Definition gather_shared (n : node) : list (bytes * bytes * N) :=
+              else [(client, sub_filter s, sub_pay s)]) (c_subs c).
+Definition gather_shared (c : content) : list (bytes * bytes * N) :=
   flat_map (fun g : bytes * list (bytes * sub) =>
-              map (fun e : bytes * sub => (fst e, sub_filter (snd e), sub_pay (snd e))) (snd g)) (c_shared (cont n)).
-Definition gather_inline (n : node) : list (N * bytes * N) :=
-  map (fun e : N * sub => (fst e, sub_filter (snd e), sub_pay (snd e))) (c_inline (cont n)).
-Definition gather_all (topic : bytes) (n : node) : scan_res :=
-  mkR (gather_subs topic n) (gather_shared n) (gather_inline n).
+              map (fun e : bytes * sub => (fst e, sub_filter (snd e), sub_pay (snd e))) (snd g)) (c_shared c).
+Definition gather_inline (c : content) : list (N * bytes * N) :=
+  map (fun e : N * sub => (fst e, sub_filter (snd e), sub_pay (snd e))) (c_inline c).
+Definition gather_all (topic : bytes) (c : content) : scan_res :=
+  mkR (gather_subs topic c) (gather_shared c) (gather_inline c).
 
 (* scanSubscribers(topic, d, n, subs): ks = the levels of topic from d on (key = head, hasNext = a tail
    exists), top = (d == 0) *)
@@ -227,16 +227,16 @@ Fixpoint scan_subs (topic : bytes) (top : bool) (ks : list level) (n : node) : s
         match get_child partKey (children n) with
         | Some particle =>
             if hasNext then scan_subs topic false rest particle
-            else res_app (gather_all topic particle)
+            else res_app (gather_all topic (cont particle))
                          (match get_child [35] (children particle) with
-                          | Some wild => gather_all topic wild
+                          | Some wild => gather_all topic (cont wild)
                           | None => res_empty
                           end)
         | None => res_empty
         end in
       res_app (res_app (visit key) (visit [43]))
               (match get_child [35] (children n) with
-               | Some particle => if dollar then res_empty else gather_all topic particle
+               | Some particle => if dollar then res_empty else gather_all topic (cont particle)
                | None => res_empty
                end)
   end.
